@@ -26,6 +26,12 @@ int main(int argc, char** argv) {
   RTV(2) RTV(3) RTV(4)
   RTM(2, 2, make_mat2x2) RTM(2, 3, make_mat2x3) RTM(2, 4, make_mat2x4) RTM(3, 2, make_mat3x2) RTM(3, 3, make_mat3x3)
   RTM(3, 4, make_mat3x4) RTM(4, 2, make_mat4x2) RTM(4, 3, make_mat4x3) RTM(4, 4, make_mat4x4)
+  // square aliases and the vector-to-vector builders make_vecN(vecM) (truncate, or pad with 0 and a final 1 for vec4)
+#define RTMA(N, NAME) add_unit_lite(nm("rt_mata", {N}), N * N, N * N, [](auto const* x, auto* o) { using T = TY(o); auto m = ldm<N, N, T>(x); T raw[N * N]; \
+    T const* p = glm::value_ptr(m); for (int i = 0; i < N * N; ++i) raw[i] = p[i]; stm(o, glm::NAME(raw)); });
+  RTMA(2, make_mat2) RTMA(3, make_mat3) RTMA(4, make_mat4)
+#define MKV(N, M) add_unit_lite(nm("mkvec", {N, M}), M, N, [](auto const* x, auto* o) { using T = TY(o); stv(o, glm::make_vec##N(ldv<M, T>(x))); });
+  MKV(1, 1) MKV(1, 2) MKV(1, 3) MKV(1, 4) MKV(2, 1) MKV(2, 2) MKV(2, 3) MKV(2, 4) MKV(3, 1) MKV(3, 2) MKV(3, 3) MKV(3, 4) MKV(4, 1) MKV(4, 2) MKV(4, 3) MKV(4, 4)
   VPM(2, 2) VPM(2, 3) VPM(2, 4) VPM(3, 2) VPM(3, 3) VPM(3, 4) VPM(4, 2) VPM(4, 3) VPM(4, 4)
 #endif
   // quaternion (by component name w,x,y,z in and out), both memory orders
